@@ -15,6 +15,12 @@ CHECKS = {
             'states are merged on (index, capacity, bucket size, stale-tail pattern); in every state every index and every slice bound in range '
             'and one beyond is compared with a Python list. Exhaustive within the bound, which is where capacity/offset bugs live.',
             'Rows are 2-column floats; row values do not influence control flow. Bound: depth 8 (quick) / 14 (thorough).', 'DESIGN.md 3/C18'),
+    'C04': ('opseq', 'explicit-state BFS over submit/execute/cancel histories on the real spot exchange, exact cash-account reference compared in every state',
+            'Every history of buy/sell MARKET/LIMIT/STOP submissions, executions and cancellations up to the stated depth (<=3 live orders, decimal '
+            'quantities, fee rates, sells of all/half/fixed size) runs on the real SpotExchange/Position/Order objects with the real strategy close path; '
+            'in every reached state balances, position size, live orders and every accept/reject verdict are compared with an exact rational cash account.',
+            'Sells are reduce-only as the strategy layer submits them; verdicts within 1e-9 of a threshold and last-bit dust are dont-care. Depth 5 quick / 6 thorough.',
+            'DESIGN.md 3/C04'),
 }
 
 NOT_APPLICABLE = {}
